@@ -57,7 +57,7 @@ impl Ctx {
 		*self.counts.entry(format!("stream:{}", stream)).or_insert(0) += 1;
 		let kind = if ans.starts_with("ok") {
 			"ok"
-		} else if ans == "err" {
+		} else if ans == "err" || ans.starts_with("err ") {
 			"err"
 		} else if ans == "panic" {
 			"panic"
